@@ -478,3 +478,8 @@ Proof.
           unfold dopt in E1. destruct (null dns); [discriminate|]. cbn [optstr_eqb] in E1. rewrite str_eqb_eq in E1. rewrite str_eqb_eq. congruence. }
         rewrite (Hnd eq_refl Eq), orb_false_r. reflexivity.
 Qed.
+
+(* the validator regenerated from the source is the stated rule *)
+From Delb.Conc Require Import SetterSpec.
+Lemma comment_rule_generated s : comment_content_refused s = comment_rule s.
+Proof. reflexivity. Qed.
